@@ -205,11 +205,15 @@ def r5(ctx):
       if not cr:
         continue
       n += 1
-      sub = [e for e in ev if e.kind == 'call' and call_attr(e.node) == 'Subscribe' and 'on_faulted' in U(e.node.func) and '__PropagateShutdown' in U(e.node)]
-      ctx.ob('C09.R5', g, 'created sink has the pool fault propagator subscribed', len(sub) == 1, 'subscriptions on the creation path: %d' % len(sub), why)
+      # the propagator: a private method of the pool that raises the pool's own fault signal with the value it is given
+      cls_ = prog.cls(rel, cname)
+      props = [m for m in cls_.methods.values() if len(m.params) == 2 and m.node.body and
+               U(m.node.body[-1]).replace(' ', '') == 'self.on_faulted.Set(%s)' % m.params[1]]
+      names = set('self.' + m.name for m in props) | set('self.' + m.node.name for m in props)
+      sub = [e for e in ev if e.kind == 'call' and call_attr(e.node) == 'Subscribe' and 'on_faulted' in U(e.node.func) and e.node.args and U(e.node.args[0]) in names]
+      ctx.ob('C09.R5', g, 'created sink has the pool fault propagator subscribed', len(sub) == 1,
+             'subscriptions of a propagator (a method whose body is self.on_faulted.Set(value); found: %s) on the creation path: %d' % (sorted(names), len(sub)), why)
     ctx.floor('C09.R5', 'creation paths of %s' % cname, n, 1)
-    p = prog.func(rel, cname + '.__PropagateShutdown')
-    ctx.ob('C09.R5', p, 'pool propagator raises the pool fault signal', U(p.node.body[-1]).replace(' ', '') == 'self.on_faulted.Set(%s)' % p.params[1], 'propagator body changed', why)
   o = prog.func(R, 'ResurrectorSink.Open')
   for ev, ex in enum_paths(ctx, o):
     cr = [e for e in ev if e.kind == 'call' and call_attr(e.node) == 'CreateSink']
